@@ -330,6 +330,45 @@ func (w *World) FlushHeld(during func()) bool {
 	return true
 }
 
+
+// FlushAtPin runs f with a schedule-point hook in place: whenever a reader inside f is about to pin
+// the memtables (Get, NewIterator, a Stream producer), the active memtable is first rotated and
+// flushed to level 0. The move of the data from the memtable list to a table then falls exactly
+// between whatever that reader looked at before and what it looks at next. Contents do not change,
+// so every oracle that holds for f on a quiescent database must still hold. Returns the number of
+// flushes that took place. Only for phases with no write in flight.
+func (w *World) FlushAtPin(f func()) int {
+	var busy atomic.Bool
+	var n atomic.Int64
+	hook := func(name string) {
+		if name != "memtables.beforePin" || !busy.CompareAndSwap(false, true) {
+			return
+		}
+		defer busy.Store(false)
+		if ok, err := w.DB.VerifRotateMemtable(); err == nil && ok {
+			if w.DB.VerifWaitFlushed(20 * time.Second) {
+				n.Add(1)
+			}
+		}
+	}
+	ownSched := !sched.Installed()
+	if ownSched {
+		sched.Install(sched.Config{})
+	}
+	sched.PointHook.Store(&hook)
+	defer func() {
+		sched.PointHook.Store(nil)
+		if ownSched {
+			sched.Uninstall()
+		}
+	}()
+	f()
+	if c := n.Load(); c > 0 {
+		w.log("%d flushes at the moment a reader pinned the memtables -> L0 %v", c, w.DB.VerifLevelOrder(0))
+	}
+	return int(n.Load())
+}
+
 // noteDiscard records an upper bound, independent of badger's own bookkeeping, of the discard
 // timestamp a compaction starting now may use: the managed discard ts, or in normal mode the smallest
 // read timestamp of an open snapshot (the newest commit when none is open).
